@@ -104,14 +104,15 @@ fn grid(tier: Tier) -> Vec<C18World> {
         w.profile = if i % 3 == 0 { "release".into() } else { "debug".into() };
         g.push(w);
     }
-    for (kind, n, op, stack, prof) in [("boolean", 20_000u64, "intersection", 2u64 << 20, "debug"), ("boolean", 30_000, "difference", 2 << 20, "debug"), ("boolean_stairs", 30_000, "union", 2 << 20, "debug")] {
+    for (kind, n, op, stack, prof) in [("boolean_fan", 30_000u64, "union", 2u64 << 20, "debug"), ("boolean", 20_000u64, "intersection", 2u64 << 20, "debug"), ("boolean", 30_000, "difference", 2 << 20, "debug"), ("boolean_stairs", 30_000, "union", 2 << 20, "debug")] {
         let mut w = base(kind, stack, n, "asc", "drop");
         w.op = op.into();
         w.profile = prof.into();
         g.push(w);
     }
     for (kind, n, op, stack) in [("boolean_nested", 100_000u64, "union", 8u64 << 20), ("boolean_nested", 60_000, "intersection", 2 << 20),
-        ("boolean_nested", 100_000, "difference", 8 << 20), ("boolean_grid", 100_000, "xor", 2 << 20), ("boolean_grid", 120_000, "union", 8 << 20)] {
+        ("boolean_nested", 100_000, "difference", 8 << 20), ("boolean_grid", 100_000, "xor", 2 << 20), ("boolean_grid", 120_000, "union", 8 << 20),
+        ("boolean_fan", 120_000, "union", 2 << 20), ("boolean_fan", 300_000, "xor", 8 << 20)] {
         let mut w = base(kind, stack, n, "asc", "drop");
         w.op = op.into();
         g.push(w);
@@ -471,6 +472,25 @@ fn grid_scenario(w: &C18World) {
     marker(&format!("returned polygons={}", r.0.len()));
 }
 
+/// Bow tie: `n` thin blades on the left and three on the right, all meeting in one vertex and nowhere else
+/// (parts touching in a point are valid). Tens of thousands of result edges share that vertex.
+fn fan_scenario(w: &C18World) {
+    let n = w.n.max(1);
+    let blade = |side: f64, i: u64| {
+        let y = 2.0 * i as f64 - n as f64;
+        Polygon::new(LineString(vec![Coord { x: 0.0, y: 0.0 }, Coord { x: side * 1024.0, y }, Coord { x: side * 1024.0, y: y + 1.0 }, Coord { x: 0.0, y: 0.0 }]), vec![])
+    };
+    let a = MultiPolygon((0..n).map(|i| blade(-1.0, i)).collect::<Vec<_>>());
+    let b = MultiPolygon((0..3).map(|i| blade(1.0, n / 2 + 3 * i)).collect::<Vec<_>>());
+    marker(&format!("boolean fan {} blades={} edges={}", w.op, n, 3 * n + 9));
+    let r = match w.op.as_str() {
+        "xor" => a.xor(&b),
+        "difference" => a.difference(&b),
+        _ => a.union(&b),
+    };
+    marker(&format!("returned polygons={}", r.0.len()));
+}
+
 fn boolean_scenario(w: &C18World) {
     let teeth = w.n;
     let c = comb(teeth);
@@ -512,6 +532,7 @@ pub fn child_main(arg: &str) -> i32 {
             "boolean_stairs" => stairs_scenario(&w),
             "boolean_nested" => nested_scenario(&w),
             "boolean_grid" => grid_scenario(&w),
+            "boolean_fan" => fan_scenario(&w),
             _ => boolean_scenario(&w),
         }
         depth()
@@ -543,7 +564,7 @@ impl World for C18World {
         }
         let mut r = Rng::stream(seed, "workload");
         let big = if tier == Tier::Thorough { 3_000_000 } else { 1_500_000 };
-        let kind = *r.pick(&["tree", "set", "tree", "set", "tree", "set", "tree", "set", "boolean", "boolean_stairs", "boolean_nested", "boolean_grid"]);
+        let kind = *r.pick(&["tree", "set", "tree", "set", "tree", "set", "tree", "set", "boolean", "boolean_stairs", "boolean_nested", "boolean_grid", "boolean_fan"]);
         let profile = if r.chance(1, 3) { "debug" } else { "release" };
         // sizes log-uniform over 10^3 .. big (thresholds can sit anywhere), smaller caps for unoptimised children
         let logu = |r: &mut Rng, lo: f64, hi: f64| (10f64).powf(lo + (hi - lo) * (r.below(1 << 20) as f64 / (1u64 << 20) as f64)) as u64;
@@ -563,6 +584,7 @@ impl World for C18World {
             op: match kind {
                 "boolean_stairs" => (*r.pick(&["union", "xor"])).into(),
                 "boolean_nested" | "boolean_grid" => (*r.pick(&["union", "xor", "intersection", "difference"])).into(),
+                "boolean_fan" => (*r.pick(&["union", "xor", "difference"])).into(),
                 _ => (*r.pick(&["intersection", "difference"])).into(),
             },
             first: (*r.pick(&FIRSTS)).into(),
